@@ -24,7 +24,7 @@ CLAIMS = {
              "equals (some include prefix matches) and not (some exclude prefix matches), that config.run turns an empty -include-pkgs into 'everything', and that IsFileInScope "
              "looks only at comment groups before the package clause with the templ marker overriding exclude docstrings.",
         note="Partial: the clause 'an out-of-scope package publishes no facts' is checked per analyzer entry (K3) where registered; per-file filtering inside whole-package AST walks is outside. "
-             "Stubs: types.NewPackage/(*types.Package).Path (symbolic path), (*ast.CommentGroup).Text (single-line contract, validated natively on samples).",
+             "Stubs: types.NewPackage/(*types.Package).Path (symbolic path), (*ast.CommentGroup).Text (single-line contract, validated natively on samples). Source level (P12): two-package programs of the C01 grammar through the real pipeline with -exclude-pkgs naming either package: no diagnostic and no fact from the excluded one. " + PIPE_NOTE + "",
     ),
     "C05": dict(
         text="For every sequence of <=N constraints (sources, sinks, flows, annotations, controlled triggers) over S symbolic sites, in every observation order, the solver shows: "
